@@ -16,7 +16,7 @@
      statement is kept in the comment above them. *)
 From Coq Require Import List ZArith Bool Arith Lia.
 From SC Require Import Base.Res Base.PyList Inst.Heap Inst.ClassTable Inst.Model Inst.Canon
-  Inst.Abs Inst.SpecHelpers Inst.RefineProofs Inst.CopyProofs Inst.CopyStore Inst.RefineMore Inst.RefineMore2 Inst.RefineMore3 Inst.RefineMore4 Inst.RefineMore5 Inst.RefineMore6 Inst.RefineMore7 Inst.RefineMore8 Inst.RefineMore9.
+  Inst.Abs Inst.SpecHelpers Inst.RefineProofs Inst.CopyProofs Inst.CopyStore Inst.RefineMore Inst.RefineMore2 Inst.RefineMore3 Inst.RefineMore4 Inst.RefineMore5 Inst.RefineMore6 Inst.RefineMore7 Inst.RefineMore8 Inst.RefineMore9 Inst.RefineMore10.
 Import ListNotations.
 Open Scope nat_scope.
 
@@ -1101,6 +1101,73 @@ Proof.
   - intros p0 ps Hkws. exact (update_top_copy_inval_refines ct h0 l c d k s Hl Hc Hd Hflat Hdnc Hfz Hfa Hpc p0 ps Hkws).
 Qed.
 
+(* ---------------- container values (Inst/RefineMore10.v) ---------------- *)
+(* with_<a>(x, _inplace=True) / obj.a = x where x is an existing list / dict / set of scalars
+   (`scalar_obj`) that CONFORMS to the annotation of `a` -- a List/Dict/Set annotation without
+   item preparer, or Optional/Union/Any around one; no preparer or the identity: the call
+   succeeds, the caller's object itself is stored (no copy, nothing else written), and the
+   receiver's abstraction gets the container's content (`aobj`: list in order, dict in
+   insertion order, set in canonical order) -- what the specification's `normalise` returns
+   for a conforming value.  STILL MISSING for collection-typed attributes: non-conforming
+   values (element-wise rebuilding), item preparers, containers of spec instances. *)
+Theorem C05_refines_container_partial : forall ct h0 l a c d k sp s lv o,
+  nth_error (heap s) l = Some (OInst c d) -> lookup_cls ct c = Some k -> lookup_attr k a = Some sp ->
+  NoDup (map fst d) -> aok (absv (heap s) (VRef l)) = true ->
+  c_frozen k = false -> no_inval k -> fail_at s = None ->
+  ty_depth (a_ty sp) < FUEL ->
+  a_prepare sp = None \/ a_prepare sp = Some FId -> a_prepare_item sp = None ->
+  nth_error (heap s) lv = Some o -> scalar_obj o = true -> conforms ct (a_ty sp) (aobj o) = true ->
+  let h := mkh [VRef lv] true true VMissing false None None [] None in
+  let ah := mkah [absv (heap s) (VRef lv)] true true AMissing false None None [] None in
+  match run_helper ct l (HWith a) h s with
+  | (Ok r, s') => r = VRef l /\
+                  spec_helper ct h0 (absv (heap s) (VRef l)) (SWith a) ah = SOk (absv (heap s') (VRef l)) /\
+                  (forall i, i <> l -> nth_error (heap s') i = nth_error (heap s) i)
+  | (Err e, s') => False
+  end.
+Proof.
+  intros ct h0 l a c d k sp s lv o Hl Hc Ha Hd Hok Hfz Hni Hfa Hty Hprep Hpi Hv Hso Hconf.
+  exact (with_container_inplace_refines ct h0 l a c d k sp s lv o Hl Hc Ha Hd Hok Hfz Hni Hfa Hty Hprep Hpi Hv Hso Hconf).
+Qed.
+
+Theorem C05_setattr_refines_container_partial : forall ct h0 l a c d k sp s lv o roots x,
+  nth_error (heap s) l = Some (OInst c d) -> lookup_cls ct c = Some k -> lookup_attr k a = Some sp ->
+  NoDup (map fst d) -> aok (absv (heap s) (VRef l)) = true ->
+  c_frozen k = false -> no_inval k -> fail_at s = None ->
+  ty_depth (a_ty sp) < FUEL ->
+  a_prepare sp = None \/ a_prepare sp = Some FId -> a_prepare_item sp = None ->
+  nth_error (heap s) lv = Some o -> scalar_obj o = true -> conforms ct (a_ty sp) (aobj o) = true ->
+  nth x roots VNone = VRef l ->
+  let ah := mkah [absv (heap s) (VRef lv)] true true AMissing false None None [] None in
+  match step ct roots (OpSetAttr x a (VRef lv)) s with
+  | (Ok r, s') => spec_helper ct h0 (absv (heap s) (VRef l)) (SSetAttrOp a) ah = SOk (absv (heap s') (VRef l)) /\
+                  (forall i, i <> l -> nth_error (heap s') i = nth_error (heap s) i)
+  | (Err e, s') => False
+  end.
+Proof.
+  intros ct h0 l a c d k sp s lv o roots x Hl Hc Ha Hd Hok Hfz Hni Hfa Hty Hprep Hpi Hv Hso Hconf Hx.
+  exact (setattr_container_refines ct h0 l a c d k sp s lv o Hl Hc Ha Hd Hok Hfz Hni Hfa Hty Hprep Hpi Hv Hso Hconf roots x Hx).
+Qed.
+
+(* non-vacuity: a6 : List[int], a8 : Optional[Dict[str, int]] *)
+Definition ex_ct4 : ctable :=
+  [mkcls 7 [mkattr 6 (TList TInt) VMissing None 7 true false None None [];
+            mkattr 8 (TOpt (TDict TStr TInt)) VNone None 7 true false None None []]
+         false false None [7] 7 [] None None].
+Definition ex_state4 : state :=
+  mkst [OList [VInt 1; VInt 2]; ODict [(VStr 3, VInt 4)]; OInst 7 [(8, VNone)]] 0 None.
+Example C05_example_container :
+  conforms ex_ct4 (TList TInt) (aobj (OList [VInt 1; VInt 2])) = true /\
+  conforms ex_ct4 (TOpt (TDict TStr TInt)) (aobj (ODict [(VStr 3, VInt 4)])) = true /\
+  (let '(r, s') := run_helper ex_ct4 2 (HWith 6) (mkh [VRef 0] true true VMissing false None None [] None) ex_state4 in
+   r = Ok (VRef 2) /\ nth_error (heap s') 2 = Some (OInst 7 [(8, VNone); (6, VRef 0)])) /\
+  spec_helper ex_ct4 [] (absv (heap ex_state4) (VRef 2)) (SWith 6)
+              (mkah [absv (heap ex_state4) (VRef 0)] true true AMissing false None None [] None)
+    = SOk (AInst 7 [(6, AList [AInt 1; AInt 2]); (8, ANone)]) /\
+  (let '(r, s') := run_helper ex_ct4 2 (HWith 8) (mkh [VRef 1] true true VMissing false None None [] None) ex_state4 in
+   r = Ok (VRef 2) /\ nth_error (heap s') 2 = Some (OInst 7 [(8, VRef 1)])).
+Proof. vm_compute. repeat split. Qed.
+
 Print Assumptions C05_noop_if_false.
 Print Assumptions C05_noop_with_unchanged.
 Print Assumptions C05_noop_update_unchanged.
@@ -1155,3 +1222,6 @@ Print Assumptions C05_refines_instance_partial.
 Print Assumptions C05_setattr_refines_instance_partial.
 Print Assumptions C05_example_instance.
 Print Assumptions C05_copy_inval_refines_partial.
+Print Assumptions C05_refines_container_partial.
+Print Assumptions C05_setattr_refines_container_partial.
+Print Assumptions C05_example_container.
